@@ -33,3 +33,19 @@ Lemma accept_only_wf_refuted_pinned :
 Proof.
   intros bs [<- | [<- | [<- | [<- | []]]]]; (split; [vm_compute; reflexivity | eexists; vm_compute; reflexivity]).
 Qed.
+
+(* non-vacuity of the hypotheses of the positive theorems (used as the Example in C08.v) *)
+Lemma example_wf :
+  wf_v1_tcp {| f_is6 := true; f_src := b "::"; f_dst := b "::1"; f_sport := b "0"; f_dport := b "65535" |} /\
+  wf_v1_unknown (b " anything") /\
+  wf_v2 {| g_vc := 33; g_fam := 18; g_body := [10;0;0;1; 10;0;0;2; 1;187; 0;80; 3;0;1;9] |} /\
+  read_flat src_cfg (b "PROXY TCP6 :: ::1 0 65535" ++ CRLF ++ b "GET") =
+    Ok (mk_v1 (tcp (zeros 16) 0%Z) (tcp (zeros 15 ++ [1]) 65535%Z)) (b "GET").
+Proof.
+  split; [|split; [|split]].
+  - unfold wf_v1_tcp. repeat split; try (vm_compute; reflexivity). vm_compute. repeat constructor.
+  - unfold wf_v1_unknown. split; [vm_compute; reflexivity | vm_compute; repeat constructor].
+  - unfold wf_v2. split; [vm_compute; reflexivity|]. split; [vm_compute; discriminate|].
+    right; left. split; [vm_compute; reflexivity | vm_compute; repeat constructor].
+  - vm_compute. reflexivity.
+Qed.
